@@ -2,14 +2,19 @@
 //!
 //! Driver: one generated commit history is applied to `MemoryStore`, `RocksDb` and
 //! `HistoricalRocksDB` under NoRewind / RewindFullRange / RewindRange{1,2,5}
-//! (all over the real `OnChain` description, RocksDB directories under the scratch
-//! dir, with close/reopen in between). After every commit the contents of every
+//! (over the real `OnChain` and `OffChain` descriptions, RocksDB directories under
+//! the scratch dir, with close/reopen in between). After every commit the contents of every
 //! used column and a systematic family of (prefix, start, direction) queries are
 //! compared with the model on every backend.
 
 use crate::model::*;
 use fuel_core::{
-    database::database_description::on_chain::OnChain,
+    database::database_description::{
+        DatabaseDescription,
+        off_chain::OffChain,
+        on_chain::OnChain,
+    },
+    fuel_core_graphql_api::storage::Column as OffChainColumn,
     state::{
         TransactableStorage,
         historical_rocksdb::{
@@ -24,12 +29,14 @@ use fuel_core::{
     },
 };
 use fuel_core_storage::{
-    column::Column,
+    column::Column as OnChainColumn,
     iter::{
         IterDirection,
         IterableStore,
+        changes_iterator::ChangesIterator,
     },
     kv_store::StorageColumn,
+    transactional::StorageChanges,
 };
 use fuel_core_types::fuel_types::BlockHeight;
 use std::{
@@ -59,17 +66,210 @@ use vcommon::{
 };
 
 const ALPHA: [u8; 5] = [0x00, 0x01, 0x7F, 0xFE, 0xFF];
-
-/// plain columns (no RocksDB prefix extractor) and one column with the fixed
-/// 32-byte prefix extractor (`OnChain::prefix`)
-const PLAIN_COLS: [Column; 3] = [Column::Coins, Column::Messages, Column::Metadata];
-const PREFIXED_COL: Column = Column::ContractsState;
+/// length of the fixed RocksDB prefix extractor of the "prefixed" columns
 const PREFIX_LEN: usize = 32;
 
-fn all_cols() -> Vec<Column> {
-    let mut v = PLAIN_COLS.to_vec();
-    v.push(PREFIXED_COL);
-    v
+/// A column as the (description-independent) workload sees it.
+#[derive(Clone, Copy, Debug, PartialEq, Eq)]
+struct Col {
+    id: u32,
+    /// the column has a fixed 32-byte RocksDB prefix extractor
+    /// (`DatabaseDescription::prefix`)
+    prefixed: bool,
+    name: &'static str,
+}
+
+/// The database descriptions the histories run over: three plain columns and
+/// two columns with the 32-byte prefix extractor each.
+trait Desc11: DatabaseDescription<Height = BlockHeight, Column: 'static> {
+    const LABEL: &'static str;
+    fn columns() -> Vec<Self::Column>;
+}
+
+impl Desc11 for OnChain {
+    const LABEL: &'static str = "on_chain";
+
+    fn columns() -> Vec<OnChainColumn> {
+        vec![
+            OnChainColumn::Coins,
+            OnChainColumn::Messages,
+            OnChainColumn::Metadata,
+            OnChainColumn::ContractsState,
+            OnChainColumn::ContractsAssets,
+        ]
+    }
+}
+
+impl Desc11 for OffChain {
+    const LABEL: &'static str = "off_chain";
+
+    fn columns() -> Vec<OffChainColumn> {
+        vec![
+            OffChainColumn::TransactionStatus,
+            OffChainColumn::Statistic,
+            OffChainColumn::ContractsInfo,
+            OffChainColumn::OwnedCoins,
+            OffChainColumn::TransactionsByOwnerBlockIdx,
+        ]
+    }
+}
+
+fn typed_col<D: Desc11>(id: u32) -> D::Column {
+    D::columns()
+        .into_iter()
+        .find(|c| c.id() == id)
+        .expect("column used by the generator")
+}
+
+type IterKv = Result<Result<Vec<(Bytes, Bytes)>, String>, String>;
+type IterKeys = Result<Result<Vec<Bytes>, String>, String>;
+type GetRes = Result<Result<Option<Bytes>, String>, String>;
+
+/// Untyped read access to a store (outer `Err` = panic, inner `Err` = error item).
+trait Kv {
+    fn get(&self, col: Col, key: &[u8]) -> GetRes;
+    /// every read method (get, exists, size_of_value, read_exact, read_zerofill)
+    fn reads(&self, col: Col, key: &[u8], offset: usize, buf_len: usize) -> Result<Result<Reads, String>, String>;
+    fn iter_kv(&self, col: Col, prefix: Option<&[u8]>, start: Option<&[u8]>, dir: IterDirection) -> IterKv;
+    fn iter_keys(&self, col: Col, prefix: Option<&[u8]>, start: Option<&[u8]>, dir: IterDirection) -> IterKeys;
+}
+
+fn typed_get<D: Desc11>(s: &dyn IterableStore<Column = D::Column>, col: Col, key: &[u8]) -> GetRes {
+    let c = typed_col::<D>(col.id);
+    catch(|| s.get(key, c).map(|v| v.map(|v| v.to_vec())).map_err(|e| format!("{e}")))
+}
+
+fn typed_reads<D: Desc11>(
+    s: &dyn IterableStore<Column = D::Column>,
+    col: Col,
+    key: &[u8],
+    offset: usize,
+    buf_len: usize,
+) -> Result<Result<Reads, String>, String> {
+    let c = typed_col::<D>(col.id);
+    catch(|| do_reads(s, key, c, offset, buf_len))
+}
+
+fn typed_iter_kv<D: Desc11>(
+    s: &dyn IterableStore<Column = D::Column>,
+    col: Col,
+    prefix: Option<&[u8]>,
+    start: Option<&[u8]>,
+    dir: IterDirection,
+) -> IterKv {
+    let c = typed_col::<D>(col.id);
+    catch(|| {
+        let mut out = Vec::new();
+        for item in s.iter_store(c, prefix, start, dir) {
+            match item {
+                Ok((k, v)) => out.push((k, v.to_vec())),
+                Err(e) => return Err(format!("{e}")),
+            }
+            if out.len() > 100_000 {
+                return Err("iterator did not terminate within 100000 items".into());
+            }
+        }
+        Ok(out)
+    })
+}
+
+fn typed_iter_keys<D: Desc11>(
+    s: &dyn IterableStore<Column = D::Column>,
+    col: Col,
+    prefix: Option<&[u8]>,
+    start: Option<&[u8]>,
+    dir: IterDirection,
+) -> IterKeys {
+    let c = typed_col::<D>(col.id);
+    catch(|| {
+        let mut out = Vec::new();
+        for item in s.iter_store_keys(c, prefix, start, dir) {
+            match item {
+                Ok(k) => out.push(k),
+                Err(e) => return Err(format!("{e}")),
+            }
+            if out.len() > 100_000 {
+                return Err("iterator did not terminate within 100000 items".into());
+            }
+        }
+        Ok(out)
+    })
+}
+
+/// an owned view (snapshot) of a store
+struct OwnedView<D: Desc11>(Box<dyn IterableStore<Column = D::Column>>);
+
+impl<D: Desc11> Kv for OwnedView<D> {
+    fn get(&self, col: Col, key: &[u8]) -> GetRes {
+        typed_get::<D>(self.0.as_ref(), col, key)
+    }
+
+    fn reads(&self, col: Col, key: &[u8], offset: usize, buf_len: usize) -> Result<Result<Reads, String>, String> {
+        typed_reads::<D>(self.0.as_ref(), col, key, offset, buf_len)
+    }
+
+    fn iter_kv(&self, col: Col, prefix: Option<&[u8]>, start: Option<&[u8]>, dir: IterDirection) -> IterKv {
+        typed_iter_kv::<D>(self.0.as_ref(), col, prefix, start, dir)
+    }
+
+    fn iter_keys(&self, col: Col, prefix: Option<&[u8]>, start: Option<&[u8]>, dir: IterDirection) -> IterKeys {
+        typed_iter_keys::<D>(self.0.as_ref(), col, prefix, start, dir)
+    }
+}
+
+/// a borrowed store
+struct RefView<'a, D: Desc11>(&'a dyn IterableStore<Column = D::Column>);
+
+impl<D: Desc11> Kv for RefView<'_, D> {
+    fn get(&self, col: Col, key: &[u8]) -> GetRes {
+        typed_get::<D>(self.0, col, key)
+    }
+
+    fn reads(&self, col: Col, key: &[u8], offset: usize, buf_len: usize) -> Result<Result<Reads, String>, String> {
+        typed_reads::<D>(self.0, col, key, offset, buf_len)
+    }
+
+    fn iter_kv(&self, col: Col, prefix: Option<&[u8]>, start: Option<&[u8]>, dir: IterDirection) -> IterKv {
+        typed_iter_kv::<D>(self.0, col, prefix, start, dir)
+    }
+
+    fn iter_keys(&self, col: Col, prefix: Option<&[u8]>, start: Option<&[u8]>, dir: IterDirection) -> IterKeys {
+        typed_iter_keys::<D>(self.0, col, prefix, start, dir)
+    }
+}
+
+/// runs `f` on a `ChangesIterator` over `changes`
+fn with_changes_iterator<D: Desc11>(changes: &StorageChanges, f: &mut dyn FnMut(&dyn Kv)) {
+    let it = ChangesIterator::<D::Column>::new(changes);
+    f(&RefView::<D>(&it))
+}
+
+/// What the (non-generic) history driver needs from a description.
+struct DescInfo {
+    label: &'static str,
+    cols: Vec<Col>,
+    open: fn(&'static str, Option<StateRewindPolicy>, Option<&Path>, bool) -> Result<Box<dyn Inner>, String>,
+    with_changes: fn(&StorageChanges, &mut dyn FnMut(&dyn Kv)),
+}
+
+fn desc_info<D: Desc11>() -> DescInfo {
+    let cols = D::columns()
+        .into_iter()
+        .map(|c| Col {
+            id: c.id(),
+            prefixed: D::prefix(&c).is_some(),
+            name: Box::leak(c.name().into_boxed_str()),
+        })
+        .collect::<Vec<_>>();
+    for c in &cols {
+        assert!(!c.prefixed || D::prefix(&typed_col::<D>(c.id)) == Some(PREFIX_LEN));
+    }
+    DescInfo {
+        label: D::LABEL,
+        cols,
+        open: open_inner::<D>,
+        with_changes: with_changes_iterator::<D>,
+    }
 }
 
 /// all strings over ALPHA with length 0..=max
@@ -91,6 +291,8 @@ fn strings(max: usize) -> Vec<Bytes> {
     out
 }
 
+/// 32-byte heads of the keys on prefix-extractor columns: they share prefixes
+/// of 1, 15, 16, 30 and 31 bytes but are pairwise different as 32-byte prefixes
 fn heads() -> Vec<Bytes> {
     let mut ha = vec![0x11u8; 31];
     ha.push(0xFE);
@@ -98,14 +300,20 @@ fn heads() -> Vec<Bytes> {
     hb.push(0xFF);
     let mut hc = vec![0x11u8; 30];
     hc.extend([0x12, 0x00]);
+    let mut he = vec![0x11u8; 15];
+    he.extend([0x22u8; 17]);
+    let mut hf = vec![0x11u8];
+    hf.extend([0x33u8; 31]);
+    let mut hg = vec![0xFFu8; 16];
+    hg.extend([0x00u8; 16]);
     let hd = vec![0xFFu8; 32];
-    vec![ha, hb, hc, hd]
+    vec![ha, hb, hc, he, hf, hg, hd]
 }
 
 struct KeySpace {
     plain: Vec<Bytes>,
     prefixed: Vec<Bytes>,
-    /// prefixes shorter than the extractor length, for the prefixed column
+    /// prefixes shorter than the extractor length, for the prefixed columns
     short_prefixes: Vec<Bytes>,
 }
 
@@ -121,7 +329,16 @@ impl KeySpace {
                 prefixed.push(k);
             }
         }
-        let short_prefixes = vec![vec![], vec![0x11], vec![0x11; 31], vec![0xFF], vec![0xFF; 31]];
+        let short_prefixes = vec![
+            vec![],
+            vec![0x11],
+            vec![0x11; 15],
+            vec![0x11; 30],
+            vec![0x11; 31],
+            vec![0xFF],
+            vec![0xFF; 16],
+            vec![0xFF; 31],
+        ];
         KeySpace {
             plain,
             prefixed,
@@ -129,8 +346,8 @@ impl KeySpace {
         }
     }
 
-    fn keys(&self, col: Column) -> &Vec<Bytes> {
-        if col == PREFIXED_COL {
+    fn keys(&self, col: Col) -> &Vec<Bytes> {
+        if col.prefixed {
             &self.prefixed
         } else {
             &self.plain
@@ -138,21 +355,38 @@ impl KeySpace {
     }
 }
 
-enum Store {
-    Mem(MemoryStore<OnChain>),
-    Rocks(RocksDb<OnChain>),
-    Hist(HistoricalRocksDB<OnChain>),
+enum Store<D: Desc11> {
+    Mem(MemoryStore<D>),
+    Rocks(RocksDb<D>),
+    Hist(HistoricalRocksDB<D>),
+}
+
+/// the typed part of a backend
+trait Inner: Kv {
+    /// Ok(Ok) accepted, Ok(Err) rejected, Err panic
+    fn commit(&self, height: Option<u32>, commit: &Commit) -> Result<Result<(), String>, String>;
+    fn snapshot(&self) -> Result<Box<dyn Kv>, String>;
+    fn reopen(&mut self) -> Result<(), String>;
+}
+
+struct InnerImpl<D: Desc11> {
+    fam: &'static str,
+    policy: Option<StateRewindPolicy>,
+    // field order matters: the store is dropped (closed) before its directory
+    store: Option<Store<D>>,
+    dir: Option<TempDir>,
+    cached: bool,
 }
 
 struct Backend {
     name: String,
     fam: &'static str,
     policy: Option<StateRewindPolicy>,
-    // field order matters: the store is dropped (closed) before its directory
-    store: Option<Store>,
-    dir: Option<TempDir>,
+    inner: Box<dyn Inner>,
     alive: bool,
-    cached: bool,
+    /// the store was closed and reopened at least once (its data went through
+    /// WAL replay into SST files)
+    reopened: bool,
 }
 
 /// `cached == false`: the repo's test configuration (no block cache);
@@ -165,66 +399,68 @@ fn cfg(cached: bool) -> DatabaseConfig {
     c
 }
 
-fn open_store(fam: &str, policy: Option<StateRewindPolicy>, path: Option<&Path>, cached: bool) -> Result<Store, String> {
+fn open_store<D: Desc11>(fam: &str, policy: Option<StateRewindPolicy>, path: Option<&Path>, cached: bool) -> Result<Store<D>, String> {
     match fam {
-        "memory" => Ok(Store::Mem(MemoryStore::<OnChain>::default())),
-        "rocksdb" => RocksDb::<OnChain>::default_open(path.unwrap(), cfg(cached))
+        "memory" => Ok(Store::Mem(MemoryStore::<D>::default())),
+        "rocksdb" => RocksDb::<D>::default_open(path.unwrap(), cfg(cached))
             .map(Store::Rocks)
             .map_err(|e| format!("{e:?}")),
-        _ => HistoricalRocksDB::<OnChain>::default_open(path.unwrap(), policy.unwrap(), cfg(cached))
+        _ => HistoricalRocksDB::<D>::default_open(path.unwrap(), policy.unwrap(), cfg(cached))
             .map(Store::Hist)
             .map_err(|e| format!("{e:?}")),
     }
 }
 
-impl Backend {
-    fn new(fam: &'static str, policy: Option<StateRewindPolicy>, scratch: &Path, cached: bool) -> Result<Self, String> {
-        let dir = if fam == "memory" {
-            None
-        } else {
-            Some(TempDir::new_in(scratch).map_err(|e| format!("tempdir: {e}"))?)
-        };
-        let store = open_store(fam, policy, dir.as_ref().map(|d| d.path()), cached)?;
-        let name = match policy {
-            None => fam.to_string(),
-            Some(StateRewindPolicy::NoRewind) => format!("{fam}(NoRewind)"),
-            Some(StateRewindPolicy::RewindFullRange) => format!("{fam}(RewindFullRange)"),
-            Some(StateRewindPolicy::RewindRange { size }) => format!("{fam}(RewindRange{size})"),
-        };
-        Ok(Backend {
-            name,
-            fam,
-            policy,
-            store: Some(store),
-            dir,
-            alive: true,
-            cached,
-        })
-    }
+fn open_inner<D: Desc11>(
+    fam: &'static str,
+    policy: Option<StateRewindPolicy>,
+    scratch: Option<&Path>,
+    cached: bool,
+) -> Result<Box<dyn Inner>, String> {
+    let dir = if fam == "memory" {
+        None
+    } else {
+        Some(TempDir::new_in(scratch.expect("scratch dir")).map_err(|e| format!("tempdir: {e}"))?)
+    };
+    let store = open_store::<D>(fam, policy, dir.as_ref().map(|d| d.path()), cached)?;
+    Ok(Box::new(InnerImpl::<D> {
+        fam,
+        policy,
+        store: Some(store),
+        dir,
+        cached,
+    }))
+}
 
-    fn reopen(&mut self) -> Result<(), String> {
-        if self.fam == "memory" {
-            return Ok(());
-        }
-        self.store = None; // closes RocksDB (no views are held at this point)
-        self.store = Some(open_store(
-            self.fam,
-            self.policy,
-            self.dir.as_ref().map(|d| d.path()),
-            self.cached,
-        )?);
-        Ok(())
-    }
-
-    fn iterable(&self) -> &dyn IterableStore<Column = Column> {
+impl<D: Desc11> InnerImpl<D> {
+    fn iterable(&self) -> &dyn IterableStore<Column = D::Column> {
         match self.store.as_ref().expect("open") {
             Store::Mem(s) => s,
             Store::Rocks(s) => s,
             Store::Hist(s) => s,
         }
     }
+}
 
-    /// Ok(Ok) accepted, Ok(Err) rejected, Err panic
+impl<D: Desc11> Kv for InnerImpl<D> {
+    fn get(&self, col: Col, key: &[u8]) -> GetRes {
+        typed_get::<D>(self.iterable(), col, key)
+    }
+
+    fn reads(&self, col: Col, key: &[u8], offset: usize, buf_len: usize) -> Result<Result<Reads, String>, String> {
+        typed_reads::<D>(self.iterable(), col, key, offset, buf_len)
+    }
+
+    fn iter_kv(&self, col: Col, prefix: Option<&[u8]>, start: Option<&[u8]>, dir: IterDirection) -> IterKv {
+        typed_iter_kv::<D>(self.iterable(), col, prefix, start, dir)
+    }
+
+    fn iter_keys(&self, col: Col, prefix: Option<&[u8]>, start: Option<&[u8]>, dir: IterDirection) -> IterKeys {
+        typed_iter_keys::<D>(self.iterable(), col, prefix, start, dir)
+    }
+}
+
+impl<D: Desc11> Inner for InnerImpl<D> {
     fn commit(&self, height: Option<u32>, commit: &Commit) -> Result<Result<(), String>, String> {
         let changes = commit.to_storage_changes();
         let height = height.map(BlockHeight::from);
@@ -238,61 +474,67 @@ impl Backend {
         })
     }
 
-    fn snapshot(&self) -> Result<Box<dyn IterableStore<Column = Column>>, String> {
-        match self.store.as_ref().expect("open") {
-            Store::Mem(s) => TransactableStorage::<BlockHeight>::latest_view(s)
-                .map(|v| Box::new(v) as Box<dyn IterableStore<Column = Column>>)
-                .map_err(|e| format!("{e}")),
-            Store::Rocks(s) => Ok(Box::new(s.create_snapshot())),
-            Store::Hist(s) => TransactableStorage::<BlockHeight>::latest_view(s)
-                .map(|v| Box::new(v) as Box<dyn IterableStore<Column = Column>>)
-                .map_err(|e| format!("{e}")),
+    fn snapshot(&self) -> Result<Box<dyn Kv>, String> {
+        let view: Box<dyn IterableStore<Column = D::Column>> = match self.store.as_ref().expect("open") {
+            Store::Mem(s) => Box::new(TransactableStorage::<BlockHeight>::latest_view(s).map_err(|e| format!("{e}"))?),
+            Store::Rocks(s) => Box::new(s.create_snapshot()),
+            Store::Hist(s) => Box::new(TransactableStorage::<BlockHeight>::latest_view(s).map_err(|e| format!("{e}"))?),
+        };
+        Ok(Box::new(OwnedView::<D>(view)))
+    }
+
+    fn reopen(&mut self) -> Result<(), String> {
+        if self.fam == "memory" {
+            return Ok(());
         }
+        self.store = None; // closes RocksDB (no views are held at this point)
+        self.store = Some(open_store::<D>(
+            self.fam,
+            self.policy,
+            self.dir.as_ref().map(|d| d.path()),
+            self.cached,
+        )?);
+        Ok(())
     }
 }
 
-fn iter_kv(
-    s: &dyn IterableStore<Column = Column>,
-    col: Column,
-    prefix: Option<&[u8]>,
-    start: Option<&[u8]>,
-    dir: IterDirection,
-) -> Result<Result<Vec<(Bytes, Bytes)>, String>, String> {
-    catch(|| {
-        let mut out = Vec::new();
-        for item in s.iter_store(col, prefix, start, dir) {
-            match item {
-                Ok((k, v)) => out.push((k, v.to_vec())),
-                Err(e) => return Err(format!("{e}")),
-            }
-            if out.len() > 100_000 {
-                return Err("iterator did not terminate within 100000 items".into());
-            }
-        }
-        Ok(out)
-    })
-}
+impl Backend {
+    fn new(desc: &DescInfo, fam: &'static str, policy: Option<StateRewindPolicy>, scratch: &Path, cached: bool) -> Result<Self, String> {
+        let inner = (desc.open)(fam, policy, Some(scratch), cached)?;
+        let name = match policy {
+            None => fam.to_string(),
+            Some(StateRewindPolicy::NoRewind) => format!("{fam}(NoRewind)"),
+            Some(StateRewindPolicy::RewindFullRange) => format!("{fam}(RewindFullRange)"),
+            Some(StateRewindPolicy::RewindRange { size }) => format!("{fam}(RewindRange{size})"),
+        };
+        Ok(Backend {
+            name: format!("{name}<{}>", desc.label),
+            fam,
+            policy,
+            inner,
+            alive: true,
+            reopened: false,
+        })
+    }
 
-fn iter_keys(
-    s: &dyn IterableStore<Column = Column>,
-    col: Column,
-    prefix: Option<&[u8]>,
-    start: Option<&[u8]>,
-    dir: IterDirection,
-) -> Result<Result<Vec<Bytes>, String>, String> {
-    catch(|| {
-        let mut out = Vec::new();
-        for item in s.iter_store_keys(col, prefix, start, dir) {
-            match item {
-                Ok(k) => out.push(k),
-                Err(e) => return Err(format!("{e}")),
-            }
-            if out.len() > 100_000 {
-                return Err("iterator did not terminate within 100000 items".into());
-            }
+    fn reopen(&mut self) -> Result<(), String> {
+        if self.fam != "memory" {
+            self.reopened = true;
         }
-        Ok(out)
-    })
+        self.inner.reopen()
+    }
+
+    fn kv(&self) -> &dyn Kv {
+        self.inner.as_ref()
+    }
+
+    fn commit(&self, height: Option<u32>, commit: &Commit) -> Result<Result<(), String>, String> {
+        self.inner.commit(height, commit)
+    }
+
+    fn snapshot(&self) -> Result<Box<dyn Kv>, String> {
+        self.inner.snapshot()
+    }
 }
 
 /// smallest byte string greater than every string with this prefix
@@ -311,6 +553,9 @@ fn successor(prefix: &[u8]) -> Option<Bytes> {
 struct Params {
     commits: usize,
     pair_queries: usize,
+    /// (prefix shorter than the extractor, start) pairs per commit on a
+    /// prefix-extractor column
+    short_prefix_pairs: usize,
     /// fraction (percent) of the prefix/start families queried per commit
     family_percent: u32,
     /// all five rewind policies in every history (otherwise NoRewind, Full and
@@ -327,6 +572,7 @@ fn params(thorough: bool) -> Params {
         Params {
             commits: 60,
             pair_queries: 200,
+            short_prefix_pairs: 200,
             family_percent: 100,
             all_policies: true,
             reopen_rounds: 2,
@@ -335,6 +581,7 @@ fn params(thorough: bool) -> Params {
         Params {
             commits: 40,
             pair_queries: 120,
+            short_prefix_pairs: 140,
             family_percent: 100,
             all_policies: false,
             reopen_rounds: 1,
@@ -352,6 +599,7 @@ struct Ctx<'a> {
     tier: &'static str,
     history: Vec<Json>,
     ks: &'a KeySpace,
+    desc: &'a DescInfo,
 }
 
 impl Ctx<'_> {
@@ -361,6 +609,7 @@ impl Ctx<'_> {
             "seed": self.shard_seed,
             "iteration": self.iteration,
             "tier": self.tier,
+            "db": self.desc.label,
             "ops": self.history,
         })
     }
@@ -372,8 +621,8 @@ impl Ctx<'_> {
     }
 }
 
-fn gen_key(rng: &mut StdRng, ks: &KeySpace, col: Column, hot: &[Bytes]) -> Bytes {
-    if col != PREFIXED_COL && !hot.is_empty() && chance(rng, 45) {
+fn gen_key(rng: &mut StdRng, ks: &KeySpace, col: Col, hot: &[Bytes]) -> Bytes {
+    if !col.prefixed && !hot.is_empty() && chance(rng, 45) {
         return pick(rng, hot).clone();
     }
     pick(rng, ks.keys(col)).clone()
@@ -405,20 +654,20 @@ fn hot_keys(rng: &mut StdRng) -> Vec<Bytes> {
     hot
 }
 
-fn gen_commit(rng: &mut StdRng, ks: &KeySpace, hot: &[Bytes], allow_dup: bool) -> Commit {
-    let cols = all_cols();
-    let gen_batch = |rng: &mut StdRng, cols: &[Column], n: usize, avoid: &BTreeSet<(u32, Bytes)>| {
+fn gen_commit(rng: &mut StdRng, ks: &KeySpace, cols: &[Col], hot: &[Bytes], allow_dup: bool) -> Commit {
+    let cols = cols.to_vec();
+    let gen_batch = |rng: &mut StdRng, cols: &[Col], n: usize, avoid: &BTreeSet<(u32, Bytes)>| {
         let mut batch = Vec::new();
         let mut used: BTreeSet<(u32, Bytes)> = BTreeSet::new();
         for _ in 0..n {
             let col = *pick(rng, cols);
             let key = gen_key(rng, ks, col, hot);
-            if avoid.contains(&(col.id(), key.clone())) || !used.insert((col.id(), key.clone())) {
+            if avoid.contains(&(col.id, key.clone())) || !used.insert((col.id, key.clone())) {
                 continue;
             }
             let val = if chance(rng, 25) { None } else { Some(gen_val(rng)) };
             batch.push(Op {
-                col: col.id(),
+                col: col.id,
                 key,
                 val,
             });
@@ -433,7 +682,7 @@ fn gen_commit(rng: &mut StdRng, ks: &KeySpace, hot: &[Bytes], allow_dup: bool) -
     // columns, disjoint keys)
     let n_batches = rng.gen_range(2..=4);
     let narrow = chance(rng, 70);
-    let sub: Vec<Column> = if narrow {
+    let sub: Vec<Col> = if narrow {
         let a = *pick(rng, &cols);
         let b = *pick(rng, &cols);
         vec![a, b]
@@ -468,6 +717,8 @@ struct Query {
     prefix: Option<Bytes>,
     start: Option<Bytes>,
     dir: IterDirection,
+    /// ask every backend through `iter_store` and `iter_store_keys`
+    both_apis: bool,
 }
 
 fn mode_of(q: &Query) -> &'static str {
@@ -479,7 +730,7 @@ fn mode_of(q: &Query) -> &'static str {
     }
 }
 
-fn gen_queries(rng: &mut StdRng, ctx: &mut Ctx, col: Column, p: &Params) -> Vec<Query> {
+fn gen_queries(rng: &mut StdRng, ctx: &mut Ctx, col: Col, colmap: &ColMap, p: &Params) -> Vec<Query> {
     let ks = ctx.ks;
     let both = [IterDirection::Forward, IterDirection::Reverse];
     let mut qs = Vec::new();
@@ -488,6 +739,7 @@ fn gen_queries(rng: &mut StdRng, ctx: &mut Ctx, col: Column, p: &Params) -> Vec<
             prefix: None,
             start: None,
             dir: d,
+            both_apis: false,
         });
     }
     let keys = ks.keys(col);
@@ -500,40 +752,82 @@ fn gen_queries(rng: &mut StdRng, ctx: &mut Ctx, col: Column, p: &Params) -> Vec<
                 prefix: Some(k.clone()),
                 start: None,
                 dir: d,
+                both_apis: false,
             });
             qs.push(Query {
                 prefix: None,
                 start: Some(k.clone()),
                 dir: d,
+                both_apis: false,
             });
         }
     }
-    if col == PREFIXED_COL {
+    if col.prefixed {
         for sp in &ks.short_prefixes {
-            // Forward prefix seeks with a prefix shorter than the column's fixed
-            // prefix extractor are outside RocksDB's prefix-seek contract
-            // (`InDomain`); only the reverse direction (total-order seek) is judged.
-            ctx.local.count("excluded.forward_prefix_shorter_than_extractor");
+            // A forward prefix-ONLY seek with a prefix shorter than the column's
+            // fixed prefix extractor makes `_iter_store` seek with
+            // `prefix_same_as_start` on an out-of-domain key (RocksDB's
+            // FixedPrefixTransform::Transform then reads past the key): the answer
+            // is not defined, so this one shape is not executed. The reverse
+            // direction (total-order seek) is judged.
+            ctx.local.count("excluded.forward_prefix_only_shorter_than_extractor");
             qs.push(Query {
                 prefix: Some(sp.clone()),
                 start: None,
                 dir: IterDirection::Reverse,
+                both_apis: true,
             });
-            // start keys shorter than the extractor are fine (total-order seek)
+            // start keys shorter than the extractor (total-order seek)
             for d in both {
                 qs.push(Query {
                     prefix: None,
                     start: Some(sp.clone()),
                     dir: d,
+                    both_apis: false,
                 });
             }
         }
+        // (short prefix, start): the prefix is shorter than the extractor, the
+        // start key begins with it. With a start of >= 32 bytes the seek key is
+        // in the extractor's domain; the answer spans several 32-byte heads.
+        let existing: Vec<&Bytes> = colmap.keys().collect();
+        for _ in 0..p.short_prefix_pairs {
+            let sp = pick(rng, &ks.short_prefixes).clone();
+            let d = *pick(rng, &both);
+            let roll = rng.gen_range(0..100);
+            let start: Option<Bytes> = if roll < 45 {
+                // a key that exists in the column
+                let c: Vec<&&Bytes> = existing.iter().filter(|k| k.starts_with(&sp)).collect();
+                if c.is_empty() { None } else { Some((**pick(rng, &c)).clone()) }
+            } else if roll < 80 {
+                // any key of the key space (its head may be absent from the column)
+                let c: Vec<&Bytes> = keys.iter().filter(|k| k.starts_with(&sp)).collect();
+                if c.is_empty() { None } else { Some((*pick(rng, &c)).clone()) }
+            } else if roll < 90 {
+                // a bare 32-byte head
+                let hs = heads();
+                let c: Vec<&Bytes> = hs.iter().filter(|k| k.starts_with(&sp)).collect();
+                if c.is_empty() { None } else { Some((*pick(rng, &c)).clone()) }
+            } else {
+                // a start that is itself shorter than the extractor
+                let c: Vec<&Bytes> = ks.short_prefixes.iter().filter(|k| k.starts_with(&sp)).collect();
+                Some((*pick(rng, &c)).clone())
+            };
+            let Some(start) = start else { continue };
+            debug_assert!(start.starts_with(&sp));
+            qs.push(Query {
+                prefix: Some(sp),
+                start: Some(start),
+                dir: d,
+                both_apis: true,
+            });
+        }
     }
-    // prefix + start pairs
+    // prefix + start pairs (on prefixed columns: prefix of at least 32 bytes)
     let tails = strings(2);
     for _ in 0..p.pair_queries {
         let d = *pick(rng, &both);
-        let (prefix, start) = if col == PREFIXED_COL {
+        let (prefix, start) = if col.prefixed {
             let h = pick(rng, &heads()).clone();
             let t = pick(rng, &tails).clone();
             let cut = rng.gen_range(0..=t.len());
@@ -554,13 +848,11 @@ fn gen_queries(rng: &mut StdRng, ctx: &mut Ctx, col: Column, p: &Params) -> Vec<
             continue;
         }
         debug_assert!(start.starts_with(&prefix));
-        if col == PREFIXED_COL {
-            debug_assert!(prefix.len() >= PREFIX_LEN);
-        }
         qs.push(Query {
             prefix: Some(prefix),
             start: Some(start),
             dir: d,
+            both_apis: false,
         });
     }
     qs
@@ -568,6 +860,7 @@ fn gen_queries(rng: &mut StdRng, ctx: &mut Ctx, col: Column, p: &Params) -> Vec<
 
 fn classify_iter_mismatch(
     b: &Backend,
+    col: Col,
     api: &str,
     q: &Query,
     expected_keys: &[Bytes],
@@ -598,21 +891,83 @@ fn classify_iter_mismatch(
             }
         }
     }
+    // On a column with a fixed prefix extractor, a (prefix shorter than the
+    // extractor, start >= extractor length) query seeks in RocksDB's prefix mode
+    // (no total-order seek): once the data lives in SST files (after a reopen) the
+    // iterator is only defined inside the 32-byte prefix of the seek key and
+    // entries of other heads go missing. One defect, one signature.
+    if b.fam != "memory"
+        && b.reopened
+        && short_prefix_shape(col, q) == Some("short_prefix_long_start")
+        && observed_keys.len() < expected_keys.len()
+        && is_subsequence(observed_keys, expected_keys)
+    {
+        return format!(
+            "prefix_start_iter_misses_entries_outside_seek_key_extractor_prefix backend={} data=sst_after_reopen",
+            b.fam
+        );
+    }
+    let shape = match short_prefix_shape(col, q) {
+        Some(shape) => format!(
+            " shape={shape} reopened={}",
+            if b.reopened { "yes" } else { "no" }
+        ),
+        None => String::new(),
+    };
     format!(
-        "iter_mismatch backend={} api={} mode={} dir={}",
+        "iter_mismatch backend={} api={} mode={} dir={}{}",
         b.fam,
         api,
         mode,
-        dir_str(q.dir)
+        dir_str(q.dir),
+        shape
     )
 }
 
+/// selftest 4: what an iterator bounded by the 32-byte extractor prefix of the
+/// seek key would return
+fn bound_to_seek_head<T>(items: &mut Vec<T>, start: Option<&[u8]>, key: impl Fn(&T) -> &Bytes) {
+    if let Some(s) = start {
+        if s.len() >= PREFIX_LEN {
+            items.retain(|i| key(i).starts_with(&s[..PREFIX_LEN]));
+        }
+    }
+}
+
+/// queries on a prefix-extractor column whose prefix is shorter than the extractor
+fn short_prefix_shape(col: Col, q: &Query) -> Option<&'static str> {
+    if !col.prefixed {
+        return None;
+    }
+    match (&q.prefix, &q.start) {
+        (Some(p), Some(s)) if p.len() < PREFIX_LEN => Some(if s.len() >= PREFIX_LEN {
+            "short_prefix_long_start"
+        } else {
+            "short_prefix_short_start"
+        }),
+        _ => None,
+    }
+}
+
+fn is_subsequence(sub: &[Bytes], all: &[Bytes]) -> bool {
+    let mut it = all.iter();
+    sub.iter().all(|k| it.any(|a| a == k))
+}
+
+fn distinct_heads(keys: &[Bytes]) -> usize {
+    keys.iter()
+        .filter(|k| k.len() >= PREFIX_LEN)
+        .map(|k| &k[..PREFIX_LEN])
+        .collect::<BTreeSet<_>>()
+        .len()
+}
+
 #[allow(clippy::too_many_arguments)]
-fn run_queries(rng: &mut StdRng, ctx: &mut Ctx, backends: &[Backend], model: &Model, col: Column, p: &Params) {
-    let colmap = model.col(col.id());
+fn run_queries(rng: &mut StdRng, ctx: &mut Ctx, backends: &[Backend], model: &Model, col: Col, p: &Params) {
+    let colmap = model.col(col.id);
     let col_hash = hash64(&colmap);
-    let qs = gen_queries(rng, ctx, col, p);
-    let prefixed = col == PREFIXED_COL;
+    let qs = gen_queries(rng, ctx, col, &colmap, p);
+    let prefixed = col.prefixed;
     for q in &qs {
         let expected = model_iter(&colmap, q.prefix.as_deref(), q.start.as_deref(), q.dir);
         let expected_keys: Vec<Bytes> = expected.iter().map(|(k, _)| k.clone()).collect();
@@ -632,6 +987,19 @@ fn run_queries(rng: &mut StdRng, ctx: &mut Ctx, backends: &[Backend], model: &Mo
         if prefixed {
             ctx.local.count("queries.on_prefix_extractor_column");
         }
+        let shape = short_prefix_shape(col, q);
+        if let Some(shape) = shape {
+            ctx.local.count(&format!(
+                "queries.{shape}.{}{}",
+                dir_str(q.dir),
+                if expected.is_empty() { ".empty" } else { ".nonempty" }
+            ));
+            if distinct_heads(&expected_keys) >= 2 {
+                // the answer crosses 32-byte extractor prefixes
+                ctx.local
+                    .count(&format!("queries.{shape}.{}.spanning_heads", dir_str(q.dir)));
+            }
+        }
         if mode == "prefix" && q.dir == IterDirection::Reverse && !expected.is_empty() {
             let prefix = q.prefix.as_ref().unwrap();
             if prefix.last() == Some(&0xFF) {
@@ -643,9 +1011,9 @@ fn run_queries(rng: &mut StdRng, ctx: &mut Ctx, backends: &[Backend], model: &Mo
         }
         let use_keys_api = chance(rng, 50);
         for b in backends.iter().filter(|b| b.alive) {
-            let s = b.iterable();
+            let s = b.kv();
             // memory: both APIs; RocksDB-based: one of them per query
-            let apis: &[bool] = if b.fam == "memory" {
+            let apis: &[bool] = if b.fam == "memory" || q.both_apis {
                 &[false, true]
             } else if use_keys_api {
                 &[true]
@@ -657,8 +1025,11 @@ fn run_queries(rng: &mut StdRng, ctx: &mut Ctx, backends: &[Backend], model: &Mo
                 ctx.local.count(&ck);
                 let api = if *keys_api { "iter_store_keys" } else { "iter_store" };
                 let (observed_keys, observed_kv): (Vec<Bytes>, Option<Vec<(Bytes, Bytes)>>) = if *keys_api {
-                    match iter_keys(s, col, q.prefix.as_deref(), q.start.as_deref(), q.dir) {
+                    match s.iter_keys(col, q.prefix.as_deref(), q.start.as_deref(), q.dir) {
                         Ok(Ok(mut k)) => {
+                            if ctx.selftest == 4 && b.fam != "memory" && shape.is_some() {
+                                bound_to_seek_head(&mut k, q.start.as_deref(), |k| k);
+                            }
                             if ctx.selftest == 1 && b.fam == "rocksdb" && mode == "start" && !k.is_empty() {
                                 k.pop();
                             }
@@ -671,9 +1042,9 @@ fn run_queries(rng: &mut StdRng, ctx: &mut Ctx, backends: &[Backend], model: &Mo
                         }
                         Err(p) => {
                             let d = format!(
-                                "{} {api}(col={:?}, prefix={}, start={}, {}) panicked: {p}",
+                                "{} {api}(col={}, prefix={}, start={}, {}) panicked: {p}",
                                 b.name,
-                                col,
+                                col.name,
                                 hex_opt(q.prefix.as_deref()),
                                 hex_opt(q.start.as_deref()),
                                 dir_str(q.dir)
@@ -686,8 +1057,11 @@ fn run_queries(rng: &mut StdRng, ctx: &mut Ctx, backends: &[Backend], model: &Mo
                         }
                     }
                 } else {
-                    match iter_kv(s, col, q.prefix.as_deref(), q.start.as_deref(), q.dir) {
+                    match s.iter_kv(col, q.prefix.as_deref(), q.start.as_deref(), q.dir) {
                         Ok(Ok(mut kv)) => {
+                            if ctx.selftest == 4 && b.fam != "memory" && shape.is_some() {
+                                bound_to_seek_head(&mut kv, q.start.as_deref(), |e| &e.0);
+                            }
                             if ctx.selftest == 3
                                 && b.fam == "memory"
                                 && q.dir == IterDirection::Reverse
@@ -704,9 +1078,9 @@ fn run_queries(rng: &mut StdRng, ctx: &mut Ctx, backends: &[Backend], model: &Mo
                         }
                         Err(p) => {
                             let d = format!(
-                                "{} {api}(col={:?}, prefix={}, start={}, {}) panicked: {p}",
+                                "{} {api}(col={}, prefix={}, start={}, {}) panicked: {p}",
                                 b.name,
-                                col,
+                                col.name,
                                 hex_opt(q.prefix.as_deref()),
                                 hex_opt(q.start.as_deref()),
                                 dir_str(q.dir)
@@ -724,12 +1098,12 @@ fn run_queries(rng: &mut StdRng, ctx: &mut Ctx, backends: &[Backend], model: &Mo
                     None => observed_keys == expected_keys,
                 };
                 if !ok {
-                    let signature = classify_iter_mismatch(b, api, q, &expected_keys, &observed_keys, &colmap);
+                    let signature = classify_iter_mismatch(b, col, api, q, &expected_keys, &observed_keys, &colmap);
                     let all_keys: Vec<Bytes> = colmap.keys().cloned().collect();
                     let detail = format!(
-                        "{} {api}(col={:?}, prefix={}, start={}, {}): expected {} observed {}; column keys {}",
+                        "{} {api}(col={}, prefix={}, start={}, {}): expected {} observed {}; column keys {}",
                         b.name,
-                        col,
+                        col.name,
                         hex_opt(q.prefix.as_deref()),
                         hex_opt(q.start.as_deref()),
                         dir_str(q.dir),
@@ -754,34 +1128,38 @@ fn run_queries(rng: &mut StdRng, ctx: &mut Ctx, backends: &[Backend], model: &Mo
 /// commits and by the off-chain worker) iterates the inserted entries of a
 /// single `Changes` like a sorted map.
 fn check_changes_iterator(rng: &mut StdRng, ctx: &mut Ctx, commit: &Commit) {
-    use fuel_core_storage::{
-        iter::changes_iterator::ChangesIterator,
-        kv_store::KeyValueInspect,
-    };
     let changes = commit.to_storage_changes();
-    let it = ChangesIterator::<Column>::new(&changes);
+    let with_changes = ctx.desc.with_changes;
+    let cols = ctx.desc.cols.clone();
+    with_changes(&changes, &mut |it: &dyn Kv| {
+        check_changes_iterator_on(rng, ctx, commit, &cols, it);
+    });
+}
+
+fn check_changes_iterator_on(rng: &mut StdRng, ctx: &mut Ctx, commit: &Commit, cols: &[Col], it: &dyn Kv) {
     let mut inserted = Model::default();
     for op in commit.ops() {
         inserted.apply_op(op);
     }
     let both = [IterDirection::Forward, IterDirection::Reverse];
     let touched: BTreeSet<u32> = commit.ops().map(|o| o.col).collect();
-    for col in all_cols() {
-        if !touched.contains(&col.id()) {
+    for col in cols.iter().copied() {
+        if !touched.contains(&col.id) {
             continue;
         }
-        let colmap = inserted.col(col.id());
+        let colmap = inserted.col(col.id);
         let mut queries: Vec<Query> = Vec::new();
         for d in both {
             queries.push(Query {
                 prefix: None,
                 start: None,
                 dir: d,
+                both_apis: true,
             });
         }
         let candidates: Vec<Bytes> = commit
             .ops()
-            .filter(|o| o.col == col.id())
+            .filter(|o| o.col == col.id)
             .map(|o| o.key.clone())
             .collect();
         for _ in 0..10 {
@@ -793,16 +1171,19 @@ fn check_changes_iterator(rng: &mut StdRng, ctx: &mut Ctx, commit: &Commit) {
                     prefix: Some(k[..cut].to_vec()),
                     start: None,
                     dir: d,
+                    both_apis: true,
                 },
                 1 => Query {
                     prefix: None,
                     start: Some(k.clone()),
                     dir: d,
+                    both_apis: true,
                 },
                 _ => Query {
                     prefix: Some(k[..cut].to_vec()),
                     start: Some(k.clone()),
                     dir: d,
+                    both_apis: true,
                 },
             };
             queries.push(q);
@@ -812,14 +1193,14 @@ fn check_changes_iterator(rng: &mut StdRng, ctx: &mut Ctx, commit: &Commit) {
             let expected_keys: Vec<Bytes> = expected.iter().map(|(k, _)| k.clone()).collect();
             ctx.local.evals += 2;
             ctx.local.add("changes_iterator.queries", 2);
-            let kv = iter_kv(&it, col, q.prefix.as_deref(), q.start.as_deref(), q.dir);
-            let keys = iter_keys(&it, col, q.prefix.as_deref(), q.start.as_deref(), q.dir);
+            let kv = it.iter_kv(col, q.prefix.as_deref(), q.start.as_deref(), q.dir);
+            let keys = it.iter_keys(col, q.prefix.as_deref(), q.start.as_deref(), q.dir);
             let ok = matches!(&kv, Ok(Ok(o)) if *o == expected) && matches!(&keys, Ok(Ok(o)) if *o == expected_keys);
             if !ok {
                 let d = format!(
-                    "ChangesIterator over {} (col={:?}, prefix={}, start={}, {}): expected {} observed iter_store={:?} iter_store_keys={:?}",
+                    "ChangesIterator over {} (col={}, prefix={}, start={}, {}): expected {} observed iter_store={:?} iter_store_keys={:?}",
                     commit.to_json(),
-                    col,
+                    col.name,
                     hex_opt(q.prefix.as_deref()),
                     hex_opt(q.start.as_deref()),
                     dir_str(q.dir),
@@ -837,16 +1218,16 @@ fn check_changes_iterator(rng: &mut StdRng, ctx: &mut Ctx, commit: &Commit) {
                 );
             }
         }
-        for op in commit.ops().filter(|o| o.col == col.id()) {
+        for op in commit.ops().filter(|o| o.col == col.id) {
             ctx.local.evals += 1;
-            let expected = inserted.get(col.id(), &op.key);
-            match catch(|| it.get(&op.key, col).map(|v| v.map(|v| v.to_vec())).map_err(|e| format!("{e}"))) {
+            let expected = inserted.get(col.id, &op.key);
+            match it.get(col, &op.key) {
                 Ok(Ok(o)) if o.as_ref() == expected => {}
                 other => {
                     let d = format!(
-                        "ChangesIterator over {}: get(col {:?}, [{}]) = {:?}, expected {}",
+                        "ChangesIterator over {}: get(col {}, [{}]) = {:?}, expected {}",
                         commit.to_json(),
-                        col,
+                        col.name,
                         hexs(&op.key),
                         other,
                         hex_opt(expected.map(|v| v.as_slice()))
@@ -858,8 +1239,101 @@ fn check_changes_iterator(rng: &mut StdRng, ctx: &mut Ctx, commit: &Commit) {
     }
 }
 
-fn read_col(b: &Backend, col: Column) -> Result<ColMap, String> {
-    match iter_kv(b.iterable(), col, None, None, IterDirection::Forward) {
+/// every read method for every key of `keys` against the model; `who`
+/// names the store in details, `sig_target` goes into signatures
+#[allow(clippy::too_many_arguments)]
+fn probe_reads(
+    ctx: &mut Ctx,
+    s: &dyn Kv,
+    who: &str,
+    sig_target: &str,
+    col: Col,
+    keys: &[Bytes],
+    model: &Model,
+    corrupt_exists: bool,
+) {
+    let mut corrupt = corrupt_exists;
+    for (i, k) in keys.iter().enumerate() {
+        ctx.local.evals += 5;
+        ctx.local.count("point_reads");
+        let expected = model.get(col.id, k);
+        let len = expected.map(|v| v.len()).unwrap_or(0);
+        let (offset, buf_len) = read_case(ctx.local.evals.wrapping_add(i as u64), len);
+        match s.reads(col, k, offset, buf_len) {
+            Ok(Ok(mut o)) => {
+                if corrupt && o.exists {
+                    corrupt = false;
+                    o.exists = false;
+                }
+                let want = expected_reads(expected, offset, buf_len);
+                let d = diff_reads(&want, &o);
+                if let Some((method, _)) = d.first() {
+                    let text = d.iter().map(|x| x.1.clone()).collect::<Vec<_>>().join("; ");
+                    let detail = format!(
+                        "{who} col {} key [{}] (offset {offset}, buffer {buf_len}): {text}",
+                        col.name,
+                        hexs(k)
+                    );
+                    let signature = if want.get != o.get {
+                        format!("get_mismatch {sig_target}")
+                    } else {
+                        format!("read_method_disagrees_with_get method={method} {sig_target}")
+                    };
+                    ctx.violation(signature, detail);
+                }
+            }
+            Ok(Err(e)) | Err(e) => {
+                let d = format!("{who} reading col {} key [{}] failed: {e}", col.name, hexs(k));
+                ctx.violation(format!("get_failed {sig_target}"), d);
+            }
+        }
+    }
+}
+
+/// prefix / start / direction queries through a held snapshot
+fn check_snapshot_queries(rng: &mut StdRng, ctx: &mut Ctx, snap: &dyn Kv, b: &Backend, col: Col, snap_model: &Model) {
+    let colmap = snap_model.col(col.id);
+    let keys = ctx.ks.keys(col);
+    let both = [IterDirection::Forward, IterDirection::Reverse];
+    for _ in 0..24 {
+        let k = pick(rng, keys).clone();
+        let min_cut = if col.prefixed { PREFIX_LEN } else { 0 };
+        let cut = rng.gen_range(min_cut..=k.len());
+        let d = *pick(rng, &both);
+        let (prefix, start) = match rng.gen_range(0..3) {
+            0 => (Some(k[..cut].to_vec()), None),
+            1 => (None, Some(k.clone())),
+            _ => (Some(k[..cut].to_vec()), Some(k.clone())),
+        };
+        let expected = model_iter(&colmap, prefix.as_deref(), start.as_deref(), d);
+        let expected_keys: Vec<Bytes> = expected.iter().map(|(k, _)| k.clone()).collect();
+        ctx.local.evals += 2;
+        ctx.local.add("snapshot_view.queries", 2);
+        let kv = snap.iter_kv(col, prefix.as_deref(), start.as_deref(), d);
+        let ks_ = snap.iter_keys(col, prefix.as_deref(), start.as_deref(), d);
+        let ok = matches!(&kv, Ok(Ok(o)) if *o == expected) && matches!(&ks_, Ok(Ok(o)) if *o == expected_keys);
+        if !ok {
+            let detail = format!(
+                "{}: held latest_view, col {} prefix={} start={} {}: expected {} observed iter_store={:?} iter_store_keys={:?}",
+                b.name,
+                col.name,
+                hex_opt(prefix.as_deref()),
+                hex_opt(start.as_deref()),
+                dir_str(d),
+                hex_kvs(&expected),
+                kv.map(|r| r.map(|o| hex_kvs(&o))),
+                ks_.map(|r| r.map(|o| hex_keys(&o))),
+            );
+            ctx.violation(
+                format!("snapshot_view_iter_mismatch backend={} dir={}", b.fam, dir_str(d)),
+                detail,
+            );
+        }
+    }
+}
+
+fn read_col(b: &Backend, col: Col) -> Result<ColMap, String> {
+    match b.kv().iter_kv(col, None, None, IterDirection::Forward) {
         Ok(Ok(kv)) => Ok(kv.into_iter().collect()),
         Ok(Err(e)) => Err(format!("error item: {e}")),
         Err(p) => Err(format!("panic: {p}")),
@@ -869,17 +1343,17 @@ fn read_col(b: &Backend, col: Column) -> Result<ColMap, String> {
 /// compare every used column of `b` with the model; returns the differing
 /// (col, key, expected, observed) tuples
 #[allow(clippy::type_complexity)]
-fn content_diff(b: &Backend, model: &Model) -> Result<Vec<(u32, Bytes, Option<Bytes>, Option<Bytes>)>, String> {
+fn content_diff(b: &Backend, cols: &[Col], model: &Model) -> Result<Vec<(u32, Bytes, Option<Bytes>, Option<Bytes>)>, String> {
     let mut diffs = Vec::new();
-    for col in all_cols() {
+    for col in cols.iter().copied() {
         let observed = read_col(b, col)?;
-        let expected = model.col(col.id());
+        let expected = model.col(col.id);
         let keys: BTreeSet<&Bytes> = observed.keys().chain(expected.keys()).collect();
         for k in keys {
             let e = expected.get(k);
             let o = observed.get(k);
             if e != o {
-                diffs.push((col.id(), k.clone(), e.cloned(), o.cloned()));
+                diffs.push((col.id, k.clone(), e.cloned(), o.cloned()));
             }
         }
     }
@@ -903,8 +1377,12 @@ fn fmt_diffs(diffs: &[(u32, Bytes, Option<Bytes>, Option<Bytes>)]) -> String {
         .join("; ")
 }
 
-fn run_history(args: &Args, report: &Report, ks: &KeySpace, shard: usize, shard_seed: u64, iteration: u64, p: &Params, selftest: u32) {
+#[allow(clippy::too_many_arguments)]
+fn run_history(args: &Args, report: &Report, ks: &KeySpace, descs: &[DescInfo], shard: usize, shard_seed: u64, iteration: u64, p: &Params, selftest: u32) {
     let mut rng = rng_for(shard_seed, &[iteration]);
+    // two of three histories over the on-chain description, one over off-chain
+    let desc = &descs[if (iteration as usize + shard) % 3 == 2 { 1 } else { 0 }];
+    let cols = desc.cols.clone();
     let mut ctx = Ctx {
         report,
         local: Local::default(),
@@ -915,7 +1393,9 @@ fn run_history(args: &Args, report: &Report, ks: &KeySpace, shard: usize, shard_
         tier: args.tier_str(),
         history: Vec::new(),
         ks,
+        desc,
     };
+    ctx.local.count(&format!("histories.{}", desc.label));
     let policies = [
         StateRewindPolicy::NoRewind,
         StateRewindPolicy::RewindFullRange,
@@ -943,7 +1423,7 @@ fn run_history(args: &Args, report: &Report, ks: &KeySpace, shard: usize, shard_
     }
     for (fam, pol) in specs {
         let t0 = std::time::Instant::now();
-        let opened = Backend::new(fam, pol, &args.scratch, cached);
+        let opened = Backend::new(desc, fam, pol, &args.scratch, cached);
         ctx.local.add("time_us.open", t0.elapsed().as_micros() as u64);
         match opened {
             Ok(b) => backends.push(b),
@@ -968,13 +1448,13 @@ fn run_history(args: &Args, report: &Report, ks: &KeySpace, shard: usize, shard_
     };
     let reopen_pick = rng.gen_range(0..8usize);
     // (backend index, snapshot, model at snapshot time)
-    let mut snapshots: Vec<(usize, Box<dyn IterableStore<Column = Column>>, Model)> = Vec::new();
+    let mut snapshots: Vec<(usize, Box<dyn Kv>, Model)> = Vec::new();
     let mut sampled = false;
 
     for step in 0..p.commits {
         let is_last = step + 1 == p.commits;
         let dup = conflict_history && is_last;
-        let commit = gen_commit(&mut rng, ks, &hot, dup);
+        let commit = gen_commit(&mut rng, ks, &cols, &hot, dup);
         let with_height = !chance(&mut rng, 15);
         let h = if with_height {
             height += 1;
@@ -1002,7 +1482,7 @@ fn run_history(args: &Args, report: &Report, ks: &KeySpace, shard: usize, shard_
                     Err(_) => "panicked",
                 };
                 ctx.local.count(&format!("info.duplicate_key_commit.{}.{}", b.name, k));
-                if let Ok(d) = content_diff(b, &before) {
+                if let Ok(d) = content_diff(b, &cols, &before) {
                     if !d.is_empty() {
                         ctx.local
                             .count(&format!("info.duplicate_key_commit.{}.content_changed", b.name));
@@ -1057,7 +1537,7 @@ fn run_history(args: &Args, report: &Report, ks: &KeySpace, shard: usize, shard_
             }
             // contents after the commit
             let t0 = std::time::Instant::now();
-            let diffed = content_diff(b, &model);
+            let diffed = content_diff(b, &cols, &model);
             ctx.local.add("time_us.content_check", t0.elapsed().as_micros() as u64);
             match diffed {
                 Err(e) => {
@@ -1097,7 +1577,7 @@ fn run_history(args: &Args, report: &Report, ks: &KeySpace, shard: usize, shard_
                         })
                         .collect();
                     let resynced = matches!(b.commit(None, &Commit::single(fix)), Ok(Ok(())))
-                        && content_diff(b, &model).map(|d| d.is_empty()).unwrap_or(false);
+                        && content_diff(b, &cols, &model).map(|d| d.is_empty()).unwrap_or(false);
                     if resynced {
                         ctx.local.count("harness.backend_resynced_after_mismatch");
                     } else {
@@ -1111,17 +1591,31 @@ fn run_history(args: &Args, report: &Report, ks: &KeySpace, shard: usize, shard_
         // snapshots taken before this commit must still show the old contents
         for (bi, snap, snap_model) in snapshots.drain(..) {
             let b = &backends[bi];
-            for col in all_cols() {
+            // every read method and a sample of queries through the held snapshot
+            let pcol = cols[(step + 1) % cols.len()];
+            ctx.local.count("snapshot_view.probed");
+            probe_reads(
+                &mut ctx,
+                snap.as_ref(),
+                &format!("{} (latest_view held over commit #{step})", b.name),
+                &format!("backend={} view=held_snapshot", b.fam),
+                pcol,
+                ks.keys(pcol),
+                &snap_model,
+                selftest == 5 && b.fam == "rocksdb",
+            );
+            check_snapshot_queries(&mut rng, &mut ctx, snap.as_ref(), b, pcol, &snap_model);
+            for col in cols.iter().copied() {
                 ctx.local.evals += 1;
                 ctx.local.count("snapshot_view.column_checks");
-                let expected: Vec<(Bytes, Bytes)> = snap_model.col(col.id()).into_iter().collect();
-                match iter_kv(snap.as_ref(), col, None, None, IterDirection::Forward) {
+                let expected: Vec<(Bytes, Bytes)> = snap_model.col(col.id).into_iter().collect();
+                match snap.iter_kv(col, None, None, IterDirection::Forward) {
                     Ok(Ok(kv)) if kv == expected => {}
                     Ok(Ok(kv)) => {
                         let d = format!(
-                            "{}: latest_view taken before commit #{step} shows col {:?} = {} after the commit, expected the old contents {}",
+                            "{}: latest_view taken before commit #{step} shows col {} = {} after the commit, expected the old contents {}",
                             b.name,
-                            col,
+                            col.name,
                             hex_kvs(&kv),
                             hex_kvs(&expected)
                         );
@@ -1136,33 +1630,18 @@ fn run_history(args: &Args, report: &Report, ks: &KeySpace, shard: usize, shard_
         }
 
         // point reads + queries on a rotating column
-        let col = all_cols()[(step + iteration as usize) % all_cols().len()];
+        let col = cols[(step + iteration as usize) % cols.len()];
         for b in backends.iter().filter(|b| b.alive) {
-            let s = b.iterable();
-            for k in ks.keys(col) {
-                ctx.local.evals += 1;
-                ctx.local.count("point_reads");
-                let expected = model.get(col.id(), k);
-                match catch(|| s.get(k, col).map(|v| v.map(|v| v.to_vec())).map_err(|e| format!("{e}"))) {
-                    Ok(Ok(o)) => {
-                        if o.as_ref() != expected {
-                            let d = format!(
-                                "{} get(col {:?}, [{}]) = {} expected {}",
-                                b.name,
-                                col,
-                                hexs(k),
-                                hex_opt(o.as_deref()),
-                                hex_opt(expected.map(|v| v.as_slice()))
-                            );
-                            ctx.violation(format!("get_mismatch backend={}", b.fam), d);
-                        }
-                    }
-                    Ok(Err(e)) | Err(e) => {
-                        let d = format!("{} get(col {:?}, [{}]) failed: {e}", b.name, col, hexs(k));
-                        ctx.violation(format!("get_failed backend={}", b.fam), d);
-                    }
-                }
-            }
+            probe_reads(
+                &mut ctx,
+                b.kv(),
+                &b.name,
+                &format!("backend={}", b.fam),
+                col,
+                ks.keys(col),
+                &model,
+                false,
+            );
         }
         let t0 = std::time::Instant::now();
         run_queries(&mut rng, &mut ctx, &backends, &model, col, p);
@@ -1173,8 +1652,9 @@ fn run_history(args: &Args, report: &Report, ks: &KeySpace, shard: usize, shard_
             report.sample(json!({
                 "shard": shard, "iteration": iteration,
                 "first_commits": ctx.history.clone(),
-                "queried_column": format!("{col:?}"),
-                "column_keys_after_commit_3": model.col(col.id()).keys().map(|k| hexs(k)).collect::<Vec<_>>(),
+                "db": desc.label,
+                "queried_column": col.name,
+                "column_keys_after_commit_3": model.col(col.id).keys().map(|k| hexs(k)).collect::<Vec<_>>(),
             }));
         }
 
@@ -1230,7 +1710,8 @@ pub fn run(args: &Args, report: &Report) {
         let iteration = r["iteration"].as_u64().unwrap_or(0);
         let shard = r["shard"].as_u64().unwrap_or(0) as usize;
         let p = params(r["tier"].as_str() == Some("thorough"));
-        run_history(args, report, &ks, shard, shard_seed, iteration, &p, selftest);
+        let descs = [desc_info::<OnChain>(), desc_info::<OffChain>()];
+        run_history(args, report, &ks, &descs, shard, shard_seed, iteration, &p, selftest);
         finish(args, report, selftest, true);
         return;
     }
@@ -1240,13 +1721,14 @@ pub fn run(args: &Args, report: &Report) {
         .extra
         .get("per-shard")
         .and_then(|s| s.parse().ok())
-        .unwrap_or(args.by_tier(3, 8));
+        .unwrap_or(args.by_tier(2, 8));
     let args2 = args.clone();
     let report2 = report.clone();
     run_shards(report, args, shards, move |shard, shard_seed| {
         let ks = KeySpace::new();
+        let descs = [desc_info::<OnChain>(), desc_info::<OffChain>()];
         for it in 0..per_shard {
-            run_history(&args2, &report2, &ks, shard, shard_seed, it, &p, selftest);
+            run_history(&args2, &report2, &ks, &descs, shard, shard_seed, it, &p, selftest);
         }
     });
     finish(args, report, selftest, false);
@@ -1268,7 +1750,14 @@ fn finish(args: &Args, report: &Report, selftest: u32, replay: bool) {
         report.require("queries.on_prefix_extractor_column", t(50_000, 250_000));
         report.require("reopen_rounds", t(24, 200));
         report.require("snapshot_view.column_checks", t(2_000, 10_000));
+        report.require("snapshot_view.probed", t(400, 2_000));
+        report.require("snapshot_view.queries", t(15_000, 75_000));
         report.require("point_reads", t(300_000, 1_500_000));
+        report.require("histories.on_chain", t(12, 50));
+        report.require("histories.off_chain", t(6, 25));
+        report.require("queries.short_prefix_long_start.forward.spanning_heads", t(5_000, 25_000));
+        report.require("queries.short_prefix_long_start.reverse.spanning_heads", t(5_000, 25_000));
+        report.require("queries.short_prefix_short_start.forward.nonempty", t(500, 2_500));
     }
     if selftest > 0 && report.violation_count() == 0 {
         report.inconclusive(format!("selftest {selftest}: the perturbation was not detected"));
@@ -1276,12 +1765,12 @@ fn finish(args: &Args, report: &Report, selftest: u32, replay: bool) {
     report.finish(
         args,
         "exploration",
-        "history = seeded list of commits (single change sets and lists with overlapping columns/disjoint keys, inserts+removes, keys over {00,01,7F,FE,FF}^0..3 and 32-byte-head keys on the prefix-extractor column) applied to MemoryStore, RocksDb and HistoricalRocksDB x {NoRewind, RewindFullRange, RewindRange 1/2/5} (quick tier: NoRewind, RewindFullRange and one rotating RewindRange size per history) with close/reopen, half of the histories with a block cache; single change sets are also read back through ChangesIterator; one evaluation = one backend answer (commit+contents, get, iter_store/iter_store_keys query, held snapshot) compared with the sorted-map model; a query is counted distinct/non-trivial when its expected result is a non-empty strict subset of the column, keyed by (column contents, prefix, start, direction)",
+        "history = seeded list of commits (single change sets and lists with overlapping columns/disjoint keys, inserts+removes, keys over {00,01,7F,FE,FF}^0..3 and, on the two prefix-extractor columns of the description, keys with seven 32-byte heads that share 1/15/16/30/31-byte prefixes; descriptions: on_chain (ContractsState, ContractsAssets) for two of three histories, off_chain (OwnedCoins, TransactionsByOwnerBlockIdx) for the third) applied to MemoryStore, RocksDb and HistoricalRocksDB x {NoRewind, RewindFullRange, RewindRange 1/2/5} (quick tier: NoRewind, RewindFullRange and one rotating RewindRange size per history) with close/reopen, half of the histories with a block cache; single change sets are also read back through ChangesIterator; one evaluation = one backend answer (commit+contents, get/exists/size_of_value/read_exact/read_zerofill, iter_store/iter_store_keys query; held snapshots are read, probed and queried too) compared with the sorted-map model; a query is counted distinct/non-trivial when its expected result is a non-empty strict subset of the column, keyed by (column contents, prefix, start, direction)",
         false,
         &[
             "commits containing the same (column,key) in two list elements are outside the compared domain (backends legitimately reject them differently); generated as the last commit of ~6% of the histories and only recorded",
             "queries with prefix and start where start does not begin with prefix are outside the documented contract and excluded (counted)",
-            "on the column with a RocksDB fixed-prefix extractor (ContractsState, 32 bytes) keys have at least 32 bytes and forward prefix queries use prefixes of at least 32 bytes (RocksDB InDomain contract); shorter prefixes are only queried in reverse direction",
+            "on columns with a RocksDB fixed-prefix extractor (32 bytes) keys have at least 32 bytes; the only shape not executed there is the forward prefix-ONLY query with a prefix shorter than 32 bytes (fuel-core seeks with prefix_same_as_start on an out-of-domain key, RocksDB reads past the key: undefined answer, counted as excluded.forward_prefix_only_shorter_than_extractor). Short prefixes are judged in reverse prefix-only queries and, in both directions and through both APIs, together with a start key (>= 32 bytes and shorter)",
             "RocksDB opened with DatabaseConfig::config_for_tests (lazy columns), with and without a 6 MiB cache",
             "a panic inside commit_changes / iter_store / get of a backend is reported as a violation (the backend did not deliver the contents the others hold)",
         ],
